@@ -128,14 +128,14 @@
           None))))
 
     (and (= (len x) 2) (in x0 syntax))
-      (if (and
-          (= x0 'unquote)
-          (isinstance x1 hy.models.Symbol)
-          (.startswith x1 "@"))
-        ; This case is special because `~@b` would be wrongly
-        ; interpreted as `(unquote-splice b)` instead of `(unquote @b)`.
-        (+ "~ " (hy-repr x1))
-        (+ (get syntax x0) (hy-repr x1)))
+      (do
+        (setv r1 (hy-repr x1))
+        (if (and (= x0 'unquote) (.startswith r1 "@"))
+          ; This case is special because `~@b` would be wrongly
+          ; interpreted as `(unquote-splice b)` instead of `(unquote @b)`.
+          ; (`x1` may be a symbol or a dotted form such as `@a.b`.)
+          (+ "~ " r1)
+          (+ (get syntax x0) r1)))
 
     True
       (+ "(" (_cat x) ")"))))
